@@ -1958,9 +1958,11 @@ def corpus_dir(sub):
 # validated motions are removed (`update(elem_, 1.0/size)`), empty cells leave the PDF (`remove(elem_)`: swap with the last
 # leaf while every other cell keeps its elem_ handle) and are re-created (`add(cell, 1.0)`).  The harness calls the real
 # planner's protected addMotion / removeMotion / selectMotion through a derived class (ops mode) or runs solve() (run mode)
-# and dumps both trees' grids + PDFs.  Oracle: an independent bookkeeping of motions -> cells in Python; the PDF model
-# (drv_pdf) is run on the add/update/remove protocol that bookkeeping implies and must reproduce the dumped PDF bit for bit,
-# element order included.
+# and dumps both trees' grids + PDFs.  Oracle: an independent bookkeeping of motions -> cells in Python.  Model tie (since
+# round 10): the add / re-weigh / remove protocol is the Lean model `Model/CellPdf.lean` (theorems cellpdf_sync,
+# cellpdf_inbounds), run by drv_pdf under the header `cellpdf` on the history of cell gains / losses (`addm <coord>`,
+# `rmm <coord>` in the depth-first order removeMotion visits the subtree, `cclear`); it must reproduce the dumped PDF bit
+# for bit, element order, per-cell counts and elem_ back-pointers included.  `clear` + reuse is part of the op mix.
 def build_sbl(ck):
     return ck.build_harness("sbl", ["sbl.cpp"], link_ompl=True)
 
@@ -2047,6 +2049,10 @@ def gen_sbl_ops(r, i):
     for _ in range(r.choice([8, 25, 70, 160])):
         k = r.below(100)
         live = [m for m in motions]
+        if k >= 97 and live:                    # clear(): both grids and PDFs emptied, the planner is used again
+            ops.append("clear")
+            motions.clear()
+            continue
         if k < 55 or not live:
             tree = r.choice(["s", "g"])
             cand = [m for m in live if motions[m]["tree"] == tree]
@@ -2085,21 +2091,20 @@ def sbl_ops_one(ck, hbin, p, script):
     ops = script[k0:]
     motions = {}
     cells = {"s": {}, "g": {}}                   # coord -> motion ids in vector order
-    handle = {"s": {}, "g": {}}                  # coord -> handle of the PDF model
-    hcoord = {"s": {}, "g": {}}
-    nh = {"s": 0, "g": 0}
-    pdfops = {"s": ["pdf"], "g": ["pdf"]}
+    # model side (round 10): the protocol itself is the Lean model `Model/CellPdf.lean` (drv_pdf, header `cellpdf`); the
+    # check only tells it WHICH cell gains / loses a motion, in the order the planner visits them
+    mops = {"s": ["cellpdf"], "g": ["cellpdf"]}
     marks = []
     nxt = 0
+
+    def cstr(co):
+        return ",".join(str(x) for x in co)
 
     def dec(tree, co, m):
         cells[tree][co].remove(m)
         if not cells[tree][co]:
-            pdfops[tree].append("rm %d" % handle[tree][co])
             del cells[tree][co]
-            del handle[tree][co]
-        else:
-            pdfops[tree].append("upd %d %s" % (handle[tree][co], B(1.0 / len(cells[tree][co]))))
+        mops[tree].append("rmm " + cstr(co))
 
     for i, ln in enumerate(ops):
         if i >= len(impl):
@@ -2110,7 +2115,7 @@ def sbl_ops_one(ck, hbin, p, script):
             return (i, "unparsable output %r" % impl[i][:80], "spec"), None, impl
         res = parts[0]
         t = ln.split()
-        tree = t[1]
+        tree = t[1] if len(t) > 1 else None
         if t[0] == "add":
             par = int(t[2])
             x = [F(v) for v in t[3:]]
@@ -2120,15 +2125,8 @@ def sbl_ops_one(ck, hbin, p, script):
             motions[nxt] = {"tree": tree, "coord": co, "children": []}
             if par >= 0:
                 motions[par]["children"].append(nxt)
-            if co in cells[tree]:
-                cells[tree][co].append(nxt)
-                pdfops[tree].append("upd %d %s" % (handle[tree][co], B(1.0 / len(cells[tree][co]))))
-            else:
-                cells[tree][co] = [nxt]
-                handle[tree][co] = nh[tree]
-                hcoord[tree][nh[tree]] = co
-                nh[tree] += 1
-                pdfops[tree].append("add " + B(1.0))
+            cells[tree].setdefault(co, []).append(nxt)
+            mops[tree].append("addm " + cstr(co))
             nxt += 1
         elif t[0] == "rm":
             m = int(t[2])
@@ -2144,6 +2142,13 @@ def sbl_ops_one(ck, hbin, p, script):
                     kill(c)
                 del motions[q]
             kill(m)
+        elif t[0] == "clear":
+            if res != "ok":
+                return (i, "clear answered %s" % res, "spec"), None, impl
+            motions.clear()
+            for nm in ("s", "g"):
+                cells[nm].clear()
+                mops[nm].append("cclear")
         elif t[0] == "sel":
             livein = [m for m in motions if motions[m]["tree"] == tree]
             if not livein:
@@ -2159,12 +2164,12 @@ def sbl_ops_one(ck, hbin, p, script):
             f = sbl_check_tree(d, cells[nm], len([m for m in motions if motions[m]["tree"] == nm]), "tree " + nm)
             if f:
                 return (i, f, "spec"), None, impl
-        marks.append((i, len(pdfops["s"]) - 1, len(pdfops["g"]) - 1))
+        marks.append((i, len(mops["s"]) - 1, len(mops["g"]) - 1))
     if rc != 0:
         return (len(ops) - 1, "harness exit code %s: %s" % (rc, (err or "")[-300:]), "crash"), None, impl
-    # ---- the PDF model on the implied protocol
+    # ---- the cell-PDF model (Lean) on the same history of cell gains / losses
     for nm, col in (("s", 1), ("g", 2)):
-        model, rc2, _ = ck.run_bin(ck.driver(DRIVER), pdfops[nm])
+        model, rc2, _ = ck.run_bin(ck.driver(DRIVER), mops[nm])
         for mk in marks:
             i, k = mk[0], mk[col]
             if k == 0:
@@ -2172,13 +2177,58 @@ def sbl_ops_one(ck, hbin, p, script):
             d = sbl_parse_tree(impl[i].split(" | ")[col])
             ml = model[k - 1] if k - 1 < len(model) else "<missing>"
             gt = ml.partition(" | ")[2].split()
+            ctok = gt.pop()[6:] if gt and gt[-1].startswith("cells=") else "?"
             got = " ".join(gt[:1] + gt[2:])
-            order = [hcoord[nm].get(int(x)) for x in (gt[1][4:].split(",") if len(gt) > 1 and gt[1][4:] else [])]
-            if got != d["pdfline"] or order != [c["coord"] for c in d["cells"]] or ml.startswith(("dead", "bad-op", "err")):
-                return None, (i, "tree %s after %r: PDF differs from the PDF model run on the add/update/remove protocol the surviving "
-                                 "motions imply: impl %s cells %s | model %s cells %s" % (nm, ops[i][:40], d["pdfline"][:160],
-                                 [c["coord"] for c in d["cells"]][:8], got[:160], order[:8])), impl
+            mcells = [tuple(c.split(":")) for c in ctok.split(";") if c]
+            want = [(cstr(c["coord"]), str(c["count"]), c["back"]) for c in d["cells"]]
+            if got != d["pdfline"] or mcells != want or not ml.startswith("ok | "):
+                return None, (i, "tree %s after %r: grid + PDF differ from the cell-PDF model (OmplModel.Model.CellPdf) run on the same "
+                                 "history of cell gains / losses: impl %s cells %s | model %s %s cells %s" % (
+                                     nm, ops[i][:40], d["pdfline"][:160], want[:8], ml[:3], got[:160], mcells[:8])), impl
     return None, None, impl
+
+
+def gen_sbl_drain(r, i):
+    """cells are filled, drained to empty one by one (the PDF element of an emptied cell is removed: the last element moves
+    into its slot, at every position of the element order), re-created, cleared and refilled: the remove + re-add + reuse-
+    after-clear history of the cell-PDF protocol, with the number of cells around the tree-shape boundaries 2^k, 2^k +- 1."""
+    ncell = r.choice([1, 2, 3, 4, 5, 7, 8, 9])
+    p = ProjProblem(2, [0.0, 0.0], [1.0, 1.0], 2, [], 0.01, 0.0, 0.05, [0.9, 0.9], 0.05, [[0.1, 0.1]], r.range(1, 100000), 0, "ops")
+    p.comps = [0, 1]
+    p.cpa = 12
+    p.sizes = [1.0 / 12, 1.0 / 12]
+    L = p.config()
+    L[0] = "sbl 2"
+    L += ["seed %d" % p.seed, "ops"]
+    centres = [((j % 6 + 0.5) / 12.0, (j // 6 + 0.5) / 12.0) for j in range(ncell)]
+    ops = []
+    ids = {}                                     # cell index -> live motion ids
+    nxt = 0
+    tree = r.choice(["s", "g"])
+
+    def add(j):
+        nonlocal nxt
+        x = [centres[j][0] + r.uniform(-0.01, 0.01), centres[j][1] + r.uniform(-0.01, 0.01)]
+        ops.append("add %s -1 %s" % (tree, " ".join(map(B, x))))
+        ids.setdefault(j, []).append(nxt)
+        nxt += 1
+    for rnd in range(r.choice([1, 2, 3])):
+        for j in range(ncell):
+            for _ in range(r.choice([1, 1, 2, 3])):
+                add(j)
+        order = list(range(ncell))
+        r.shuffle(order)
+        for j in order[:r.range(1, ncell)]:
+            for m in list(ids.get(j, [])):       # drain cell j: its last removal takes the element out of the PDF
+                ops.append("rm %s %d" % (tree, m))
+            ids[j] = []
+            ops.append("sel %s" % tree)
+            if r.chance(1, 2):
+                add(j)                           # the cell comes back as the LAST element
+        if r.chance(1, 2):
+            ops.append("clear")
+            ids.clear()
+    return p, L + ops
 
 
 def gen_sbl_run(r, i):
@@ -2220,6 +2270,9 @@ def sbl_jobs(ck):
     out = []
     for i in range(40 if quick else 280):
         p, sc_ = gen_sbl_ops(r.fork("o%d" % i), i)
+        out.append(("ops", p, sc_))
+    for i in range(10 if quick else 80):
+        p, sc_ = gen_sbl_drain(r.fork("d%d" % i), i)
         out.append(("ops", p, sc_))
     for i in range(16 if quick else 150):
         p, sc_ = gen_sbl_run(r.fork("r%d" % i), i)
@@ -2270,6 +2323,8 @@ def cest_jobs(ck):
                 ops.append("add s -1 " + " ".join(t[3:]))
             elif t[0] == "sel":
                 ops.append("sel s")
+            elif t[0] == "clear":
+                ops.append("clear")
         sc_ = ["cest 2"] + sc_[1:k0] + ops
         out.append(("ops", p, sc_))
     for i in range(8 if quick else 80):
@@ -2391,13 +2446,13 @@ def run(ck):
                 continue
             if not atlas_judge(ck, abin, tag, sc_, fut.result()):
                 abad += 1
-        sbad = 0
+        sbad = {"sbl": 0, "cest": 0}               # per engine: a failing SBL must not hide control::EST
         for (eng, _b, tg, p_, sc_), fut in zip(sjobs, sres):
-            if sbad >= 3:
+            if sbad[eng] >= 3:
                 fut.cancel()
                 continue
             if not sbl_judge(ck, tg, p_, sc_, fut.result(), eng):
-                sbad += 1
+                sbad[eng] += 1
     return 0
 
 
@@ -2494,8 +2549,12 @@ MANIFEST = {
             "(tree invariant, PDF holds one element per motion / cell with the coded weight for the current counts, selection in "
             "range, truthful reports) and lock-step runs of the real planners; AtlasStateSpace::chartPDF_, geometric::SBL's and "
             "control::EST's cell PDFs by driving the real classes, dumping their PDFs after every operation, an independent "
-            "bookkeeping oracle, and a bit-exact replay of the implied add/update/remove protocol through the PDF model "
-            "(+ theorem atlas_pdf_index_is_chart_index for the position-addressed refresh).",
+            "bookkeeping oracle, and a bit-exact lock-step with the Lean model of their protocol (atlas: position-addressed refresh, "
+            "theorem atlas_pdf_index_is_chart_index; SBL / control::EST: the cell-PDF protocol add / re-weigh / remove / clear, "
+            "theorems cellpdf_sync, cellpdf_inbounds).  Every container access of add/update/remove is explicit in checked twins "
+            "that the driver runs (theorem edits_inbounds: never outside the storage, for every history and weight type); "
+            "proportionality is proved as the exact set of sampling values per element and as Lebesgue measure w_i/total "
+            "(sample_iff_interval, sample_proportional, sample_probability).",
     "note": "Trusted: Lean kernel, the three standard axioms, the hand-written models outside the scripts the correspondence "
             "explored, the harnesses (private/protected opened in their own translation units). Arithmetic theorems are over "
             "exact ordered rings/fields; IEEE rounding is executed (models at Float, bit-compared) and proportionality under "
